@@ -1,5 +1,7 @@
 // C++ side of C39 (relay part): the real PeerManager / mempool / validation of a regtest node with mock peers.
-//   case: { peer <inbound 0|1> | tx <i> | rm <i> | block | trickle <p> | getdata <p> <i> | mpreq <p> }*
+//   case: { peer <kind> | tx <i> | rm <i> | block | trickle <p> | getdata <p> <i> | mpreq <p> | ptx <i> | recv <p> <i> | pconn | pget <c> <i> }*
+//         ptx: BroadcastTransaction(NO_MEMPOOL_PRIVATE_BROADCAST); recv: the tx arrives in a tx message of peer p; pconn: a private-broadcast
+//         connection completes its handshake (which tx is INVed?); pget: GETDATA(MSG_TX) on such a connection
 //   output per op:  peer -> index;  tx -> "ok:<entry_seq>:<mempool_seq>" | "rej";  rm -> mempool_seq;  block -> mempool_seq;
 //                   trickle -> "<last_inv_seq>:<announced tx indices>";  getdata -> "tx" | "notfound" | "none"
 //   hints: for every trickle, 1 if m_last_inv_sequence was set by it (an announcement snapshot was taken), else 0
@@ -37,6 +39,7 @@ int main()
             H.sync();
         }
         if (S.m_node.mempool->size() > 0) return "BADSTATE mempool not empty";
+        for (const auto& e : H.peerman->GetPrivateBroadcastInfo()) H.peerman->AbortPrivateBroadcast(e.tx->GetHash().ToUint256());
         std::map<int, CTransactionRef> txs;
         std::map<uint256, int> tx_of;
         auto make_tx = [&](int i) {
@@ -53,7 +56,7 @@ int main()
             return t;
         };
         auto mp_seq = [&]() { LOCK(S.m_node.mempool->cs); return S.m_node.mempool->GetSequence(); };
-        std::string out, hints = " " + std::to_string(mp_seq());
+        std::string out, hints = " " + std::to_string(mp_seq()) + " " + std::to_string(H.now);
         auto emit = [&](const std::string& r) { out += (out.empty() ? "" : " ") + r; };
         size_t p = 0;
         while (p < w.size()) {
@@ -119,6 +122,54 @@ int main()
                 if (getenv("TXRELAY_DEBUG")) { for (const auto& m : H.sent) fprintf(stderr, "sent peer=%d type=%s\n", m.peer, m.type.c_str()); fprintf(stderr, "disc=%d\n", (int)H.nodes.at(peer)->fDisconnect); }
                 for (const auto& m : H.sent) { if (m.peer == peer && m.type == NetMsgType::TX) r = "tx"; else if (m.peer == peer && m.type == NetMsgType::NOTFOUND) r = "notfound"; }
                 emit(r);
+            } else if (op == "pget") {
+                // GETDATA(MSG_TX) on a private-broadcast connection
+                int peer = vd::ll(w.at(p++)); int i = vd::ll(w.at(p++));
+                CTransactionRef t = make_tx(i);
+                H.sent.clear();
+                H.deliver(peer, NetMsg::Make(NetMsgType::GETDATA, std::vector<CInv>{CInv{MSG_TX, t->GetHash().ToUint256()}}));
+                std::string r = H.nodes.at(peer)->fDisconnect ? "disc" : "none";
+                for (const auto& m : H.sent) { if (m.peer == peer && m.type == NetMsgType::TX) r = "tx"; }
+                emit(r);
+            } else if (op == "ptx") {
+                // BroadcastTransaction(NO_MEMPOOL_PRIVATE_BROADCAST): "p<error>:<in mempool>:<entries of the private queue for it>"
+                int i = vd::ll(w.at(p++));
+                CTransactionRef t = make_tx(i);
+                std::string err;
+                auto r = node::BroadcastTransaction(S.m_node, t, err, /*max_tx_fee=*/0, node::TxBroadcast::NO_MEMPOOL_PRIVATE_BROADCAST, /*wait_callback=*/false);
+                bool inmp = S.m_node.mempool->exists(t->GetHash());
+                int q = 0;
+                for (const auto& e : H.peerman->GetPrivateBroadcastInfo()) if (e.tx->GetWitnessHash() == t->GetWitnessHash()) ++q;
+                emit("p" + std::to_string((int)r) + ":" + (inmp ? "1" : "0") + ":" + std::to_string(q));
+            } else if (op == "recv") {
+                // the transaction arrives from the network in a tx message of peer <p>
+                int peer = vd::ll(w.at(p++)); int i = vd::ll(w.at(p++));
+                CTransactionRef t = make_tx(i);
+                H.deliver(peer, NetMsg::Make(NetMsgType::TX, TX_WITH_WITNESS(*t)));
+                H.sync();
+                uint64_t es = 999999; bool inmp = false;
+                { LOCK(S.m_node.mempool->cs); auto it = S.m_node.mempool->GetIter(t->GetHash()); if (it) { inmp = true; es = (*it)->GetSequence(); } }
+                int q = 0;
+                for (const auto& e : H.peerman->GetPrivateBroadcastInfo()) if (e.tx->GetWitnessHash() == t->GetWitnessHash()) ++q;
+                emit((inmp ? "ok:" + std::to_string(es) + ":" + std::to_string(mp_seq()) : std::string("rej")) + ":q" + std::to_string(q));
+            } else if (op == "pconn") {
+                // a private-broadcast connection completes its handshake: which transaction is INVed on it?
+                int n = H.nodes.size();
+                in_addr a{}; a.s_addr = htonl(0x64000001u + n * 0x10000u);
+                H.sent.clear();
+                int idx = H.add_private_conn(CService(a, 8333));
+                std::string r = H.nodes.at(idx)->fDisconnect ? "disc" : "none";
+                for (const auto& m : H.sent) {
+                    if (m.peer != idx || m.type != NetMsgType::INV) continue;
+                    DataStream ds{m.data};
+                    std::vector<CInv> v; ds >> v;
+                    r = std::to_string(v.size()) + "inv";
+                    for (const auto& inv : v) { auto it = tx_of.find(inv.hash); r += ":" + std::to_string(it == tx_of.end() ? -1 : it->second); }
+                }
+                int picked = -1;
+                { auto pos = r.find("inv:"); if (pos != std::string::npos) picked = std::stoi(r.substr(pos + 4)); }
+                hints += " " + std::to_string(picked);
+                emit(std::to_string(idx) + "=" + r);
             } else return "BADCASE " + op;
         }
         return out + " ##" + hints;
